@@ -809,6 +809,46 @@ pub fn run(ctx: &Ctx) {
             }
         }
     }
+    // stdin whose FIRST piece is only 1..5 bytes (a producer that writes a few bytes, then the rest): the same bytes as
+    // the file argument, so the same outcome - a reader that judges the input on its first read sees a 1-3 byte prefix
+    {
+        let pt = &pts[1].1;
+        let f = refspec::encode_key_file(&a.sk, &a.pk, &b.pk, &rng.arr32(), &rng.arr32(), pt, &refspec::natural_chunking(pt.len(), 65536)).unwrap();
+        let pf = refspec::encode_pass_file(b"pp", &rng.arr32(), pt, &refspec::natural_chunking(pt.len(), 65536));
+        let dir = w.wd.path.join("firstpiece");
+        let _ = std::fs::create_dir_all(&dir);
+        std::fs::write(dir.join("kr.txt"), &kr_ab).unwrap();
+        let jobs: Vec<(usize, usize)> = (0..4usize).flat_map(|c| (1..=5usize).map(move |k| (c, k))).collect();
+        crate::util::par_for(jobs.len(), crate::util::ncpu().min(8), |j| {
+            let (c, k) = jobs[j];
+            let (what, args, pw, input): (&str, Vec<&str>, &str, &Vec<u8>) = match c {
+                0 => ("decrypt <stdin", vec!["decrypt", "-t", &b.name, "-k", "kr.txt", "--env-pass"], &b.password, &f),
+                1 => ("password decrypt <stdin", vec!["password", "decrypt", "--env-pass"], "pp", &pf),
+                2 => ("encrypt <stdin", vec!["encrypt", "-t", &b.name, "-f", &a.name, "-k", "kr.txt", "--env-pass"], &a.password, pt),
+                _ => ("password encrypt <stdin", vec!["pass", "enc", "--env-pass"], "pp", pt),
+            };
+            let sizes = vec![k.min(input.len().max(1)), 0, 0, 1, 0, input.len()];
+            let o = Cmd::new(&dir, &args).pass(pw).stdin(Stdin::Dribble(input.clone(), sizes)).stdout(Stdout::Capture).run();
+            ctx.eval();
+            let case = || json!({"command": what, "first_piece_bytes": k, "input_len": input.len(), "exit": o.exit.describe(), "stderr": o.stderr_s(), "stdout_len": o.stdout.len()});
+            if o.exit == Exit::Timeout {
+                ctx.inconclusive("C12: timeout with a tiny first stdin piece");
+                return;
+            }
+            let good = match c {
+                0 | 1 => o.exit == Exit::Code(0) && &o.stdout == pt,
+                2 => o.exit == Exit::Code(0) && refspec::decode_key_file(&o.stdout, &b.sk, &b.pk).map(|d| d.body.complete() && &d.body.plaintext() == pt).unwrap_or(false),
+                _ => o.exit == Exit::Code(0) && refspec::decode_pass_file(&o.stdout, b"pp").map(|d| d.body.complete() && &d.body.plaintext() == pt).unwrap_or(false),
+            };
+            if good {
+                ctx.seen("stdin with a first piece of 1-5 bytes -> same outcome as the file argument");
+                ctx.distinct(&format!("firstpiece|{}|{}", what, k));
+            } else {
+                ctx.violation(&format!("C12:{}:outcome-depends-on-how-stdin-is-cut:tiny-first-piece", what.split(' ').next().unwrap_or("cmd")), case());
+            }
+        });
+        ctx.require("stdin with a first piece of 1-5 bytes -> same outcome as the file argument", 10);
+    }
     // failing sinks and usage errors must not exit 0
     let wd = &w.wd;
     wd.write("kr.txt", kr_ab.as_bytes());
